@@ -4,6 +4,8 @@ The real ahrs code is executed on arrays whose elements are `SR` (z3 Real terms)
 `SymBool` fork the execution (depth-first re-execution under a decision schedule). Partial
 operations (division, sqrt, arccos, ...) record definedness obligations.
 """
+import sys
+import os
 import builtins
 import math
 import time
@@ -958,7 +960,10 @@ def sym_sqrt(x):
         ok = False
         nonneg = _const_of(ct) is not None and _const_of(ct) >= 0
         from . import algcert
-        cert, _info = algcert.try_certify(cons, z3.Not(x.t == ct * ct), budget_s=0.6)
+        try:
+            cert, _info = algcert.try_certify(cons, z3.Not(x.t == ct * ct), budget_s=0.6)
+        except (KeyError, IndexError, ValueError) as _e:     # certificate search failed: not certified
+            cert, _info = False, f'certificate search failed: {type(_e).__name__}'
         if cert:
             if nonneg:
                 ok = True
@@ -1196,6 +1201,19 @@ def explore(fn, max_paths=64, on_path=None, roots=None):
             res = ('unsupported', e)
         except Exception as e:   # the code's own exception on this path
             res = ('exc', e)
+            try:
+                tb_ = e.__traceback__
+                while tb_ is not None and tb_.tb_next is not None:
+                    tb_ = tb_.tb_next
+                if tb_ is not None and '/symnp/' in tb_.tb_frame.f_code.co_filename.replace(os.sep, '/'):
+                    # raised inside the engine itself (not by the code under test, not by NumPy): an engine failure,
+                    # reported as undecided, never as the code's exception
+                    res = ('unsupported', SymnpUnsupported(f"engine error {type(e).__name__}: {e} in {os.path.basename(tb_.tb_frame.f_code.co_filename)}:{tb_.tb_lineno}"))
+            except Exception:
+                pass
+            if os.environ.get('SYMNP_TB'):
+                import traceback
+                sys.stderr.write(f"[symnp exc] {type(e).__name__}: {e}\n{traceback.format_exc(limit=-6)}\n")
         finally:
             CTX.mode = 'off'
         full = list(CTX.schedule)
